@@ -60,6 +60,14 @@ func c17Concrete(es []c17Entry) []corev1alpha1.ObjectSetProbe {
 				p.Probes = append(p.Probes, corev1alpha1.Probe{Condition: &corev1alpha1.ProbeConditionSpec{Type: "Ready", Status: "True"}})
 			case "fields":
 				p.Probes = append(p.Probes, corev1alpha1.Probe{FieldsEqual: &corev1alpha1.ProbeFieldsEqualSpec{FieldA: ".spec.a", FieldB: ".status.a"}})
+			case "fieldsEmpty": // degenerate paths name no field: the probe fails, whatever the object
+				p.Probes = append(p.Probes, corev1alpha1.Probe{FieldsEqual: &corev1alpha1.ProbeFieldsEqualSpec{FieldA: "", FieldB: ""}})
+			case "fieldsDots":
+				p.Probes = append(p.Probes, corev1alpha1.Probe{FieldsEqual: &corev1alpha1.ProbeFieldsEqualSpec{FieldA: ".", FieldB: ".."}})
+			case "fieldsEmptySeg":
+				p.Probes = append(p.Probes, corev1alpha1.Probe{FieldsEqual: &corev1alpha1.ProbeFieldsEqualSpec{FieldA: ".spec..a", FieldB: ".status..a"}})
+			case "unknown": // a probe of no known type (valid per CRD): contributes nothing
+				p.Probes = append(p.Probes, corev1alpha1.Probe{})
 			case "cel":
 				p.Probes = append(p.Probes, corev1alpha1.Probe{CEL: &corev1alpha1.ProbeCELSpec{Rule: "self.spec.x > 0", Message: "x must be positive"}})
 			case "celEmpty":
@@ -128,7 +136,8 @@ func c17Object(o c17Obj) *unstructured.Unstructured {
 }
 
 func c17Entries() []c17Entry {
-	subsets := [][]string{{}, {"condA"}, {"condB"}, {"fields"}, {"cel"}, {"condA", "fields"}, {"condA", "condB"}, {"cel", "condA", "fields"}, {"celNonBool"}, {"celEmpty"}, {"celEmpty", "fields"}}
+	subsets := [][]string{{}, {"condA"}, {"condB"}, {"fields"}, {"cel"}, {"condA", "fields"}, {"condA", "condB"}, {"cel", "condA", "fields"}, {"celNonBool"}, {"celEmpty"}, {"celEmpty", "fields"},
+		{"fieldsEmpty"}, {"fieldsDots"}, {"fieldsEmptySeg"}, {"fieldsEmpty", "condA"}, {"unknown"}, {"unknown", "condA"}}
 	var out []c17Entry
 	for _, k := range []string{"none", "match", "mismatch"} {
 		for _, l := range []string{"none", "match", "mismatch", "notexists"} {
